@@ -2,6 +2,9 @@
 use hcommon::*;
 
 pub fn run(args: &Args) {
+    if args.prop == "c14-ndl" {
+        return super::c19::run_c14_ndl(args);
+    }
     eprintln!("hfull: {} not implemented yet", args.prop);
     std::process::exit(2);
 }
